@@ -77,6 +77,7 @@ def ranges(run, repo):
     for pre, off, digits, delim in combos:
         for mixed in (False, True):
             I = Interp(repo)
+            I.int_syms.update({'N', 'M'})       # the suffixes are integers (printed with d)
             D = I.D
             base = D.sym('N')
             ids = []
@@ -159,6 +160,7 @@ def ranges(run, repo):
                               % (label, show(st, 160)), m, fn)
     # short (non zero-padded) suffixes: 'r_5' must not be renamed
     I = Interp(repo)
+    I.int_syms.add('N')
     ids = [make_id(I, [('r', 1)], I.D.sym('N'), o, 1) for o in (5, 6)]
     lst = I.call_function(m, fn, [], {'objs': ListV([i[0] for i in ids]), 'format': 'list'})
     renamed = False
